@@ -234,3 +234,54 @@ func verifDateTimeAddSub(sub bool) {
 
 func VerifHarness_C09_DateTimeAdd() { verifDateTimeAddSub(false) }
 func VerifHarness_C09_DateTimeSub() { verifDateTimeAddSub(true) }
+
+// C09-B2: clock units on DateTimes that carry an offset (whole-hour, half-hour and 45-minute zones): the result keeps
+// layout and offset and equals the instant plus the amount truncated to the value's precision; (x + q) - q = x.
+// The date is fixed (a leap day), time of day and amount are symbolic.
+func VerifHarness_C09_DateTimeOffsetClockUnits() {
+	verifrt.SplitCalendar()
+	li := 7 + verifrt.Choose("layout", 4) // hour, minute, second, millisecond with an offset designator
+	rank := verifDTRank(li)
+	offMin := []int{0, 330, -480, 825, -30}[verifrt.Choose("offset", 5)]
+	loc := time.FixedZone("", offMin*60)
+	h := verifrt.NondetIntRange("h", 0, 23)
+	mi, s, ms := 0, 0, 0
+	if rank >= 4 {
+		mi = verifrt.NondetIntRange("mi", 0, 59)
+	}
+	if rank >= 5 {
+		s = verifrt.NondetIntRange("s", 0, 59)
+	}
+	if rank >= 6 {
+		ms = verifrt.NondetIntRange("ms", 0, 999)
+	}
+	base := time.Date(2020, 2, 29, h, mi, s, ms*1000000, loc)
+	dt := DateTime{base, verifDTLayouts[li]}
+	units := []string{"hour", "minute", "second", "millisecond"}
+	ui := verifrt.Choose("unit", len(units))
+	perMs := []int64{3600000, 60000, 1000, 1}[ui]
+	n := verifrt.NondetIntRange("n", -verifrt.Bound(200, 5000), verifrt.Bound(200, 5000))
+	q := verifQty(n, units[ui])
+	verifrt.Tag("rank", []string{"year", "month", "day", "hour", "minute", "second", "millisecond"}[rank])
+	verifrt.Tag("unitName", units[ui])
+	finer := "no"
+	if ui+3 > rank {
+		finer = "yes"
+	}
+	verifrt.Tag("unitFinerThanPrecision", finer)
+	got, err := dt.Add(q)
+	verifrt.Assert(err == nil, "datetime-arithmetic-accepts-time-valued-units")
+	if err != nil {
+		return
+	}
+	verifrt.Assert(got.l == dt.l, "datetime-arithmetic-preserves-precision")
+	_, off := got.dateTime.Zone()
+	verifrt.Assert(off == offMin*60, "datetime-arithmetic-preserves-offset")
+	prec := []int64{0, 0, 86400000, 3600000, 60000, 1000, 1}[rank]
+	amount := int64(n) * perMs / prec * prec
+	want := base.Add(time.Duration(amount) * time.Millisecond)
+	verifrt.Assert(got.dateTime.Equal(want), "datetime-arithmetic-equals-calendar-reference")
+	back, err2 := got.Sub(q)
+	verifrt.Assert(err2 == nil && back.dateTime.Equal(base) && back.l == dt.l, "adding-then-subtracting-returns-the-value")
+	verifrt.Reach("end")
+}
